@@ -17,12 +17,15 @@ RULE = (
     "query-true > e*N/width is at most floor(K*exp(-8)), N = n_added(). (2) 20000 random keys of varied length (1..72 bytes); the column each key "
     "owns in each row is read from a probe sketch (one add to an empty sketch) for count-min linear/log16/log8 and heavy hitters at widths 16 (and "
     "7, 9, 10, 12, 15, 17, 51, 64) and depths 2..8; oracle: for every pair of rows every cell of the width x width joint histogram and every marginal lies inside the "
-    "exact two-sided Binomial acceptance interval at level 1e-14 per test (lgamma-computed; total false-alarm budget < 1e-9 per run). Equal or "
+    "exact two-sided Binomial acceptance interval at level 1e-14 per test (lgamma-computed; total false-alarm budget < 1e-9 per run). The same "
+    "test runs on 20000 distinct structured keys (8 common prefixes of 0/8/16 bytes x 64 four-byte stems, half with the top bit set in the last "
+    "byte, x 1-3 random bytes: families that differ only in their last bytes, the shape of short binary records) for linear/hh/log8. Equal or "
     "correlated rows put ~n/width keys on the diagonal or leave cells empty. Non-trivial: a stream with >= 1 key heavier than e*N/width; a row "
     "pair. Distinct = distinct (stream seed, K, width) / (class, width, depth, row pair)."
 )
 ASSUMPTIONS = [
     "keys are i.i.d. random byte strings, so under independent uniform row hashes each joint cell count is Binomial(n, 1/width^2)",
+    "the structured key families are distinct keys, and the reference FastHash mixes every input byte into all 64 bits, so the same Binomial model is used for them (quiet at 10 seeds on the unchanged tree)",
     "single-row exceedance of the documented bound measured at 3-5.6% on the pinned tree, i.e. ~1e-10 per key for 8 independent rows",
 ]
 
@@ -98,6 +101,30 @@ def _stream_task(arg):
 CLS = {"linear": lambda w, d: CountMinLinear(w, d), "log16": lambda w, d: CountMinLog16(w, d), "log8": lambda w, d: CountMinLog8(w, d), "hh": lambda w, d: HeavyHitters(w, d, 72)}
 _KEYS2 = None
 _KEYS2_SEED = None
+_KEYS3 = None
+
+
+def stem_keys(rng, n):
+    """Distinct structured keys: one of 8 common prefixes (0, 8 or 16 bytes, so the rest is the hash's tail), one of 64 four-byte
+    stems (half of them with the top bit set in their last byte) and 1-3 random bytes: families of keys that differ only in their
+    last bytes, the shape of short binary records."""
+    pre = [b""] * 4 + [rng.integers(0, 256, 8 * int(j), dtype=np.uint8).tobytes() for j in (1, 1, 2, 2)]
+    stems = []
+    for i in range(64):
+        b = bytearray(rng.integers(0, 256, 4, dtype=np.uint8).tobytes())
+        b[3] = (b[3] | 0x80) if i % 2 else (b[3] & 0x7F)
+        stems.append(bytes(b))
+    out, seen = [], set()
+    while len(out) < n:
+        m = n - len(out) + 64
+        pi, si, sl = rng.integers(0, 8, m), rng.integers(0, 64, m), rng.integers(1, 4, m)
+        suf = rng.integers(0, 256, 3 * m, dtype=np.uint8).tobytes()
+        for j in range(m):
+            k = pre[int(pi[j])] + stems[int(si[j])] + suf[3 * j : 3 * j + int(sl[j])]
+            if k not in seen and len(out) < n:
+                seen.add(k)
+                out.append(k)
+    return out
 
 
 def columns(kind, width, depth, keys):
@@ -118,9 +145,10 @@ def columns(kind, width, depth, keys):
 
 
 def _joint_task(arg):
-    kind, width, depth = arg
+    kind, width, depth = arg[:3]
+    keyset = arg[3] if len(arg) > 3 else "random"
     rec = common.Recorder()
-    keys = _KEYS2
+    keys = _KEYS3 if keyset == "stems" else _KEYS2
     n = len(keys)
     cols = columns(kind, width, depth, keys)
     alpha = 1e-14
@@ -128,21 +156,21 @@ def _joint_task(arg):
     mlo, mhi = binom_interval(n, 1.0 / width, alpha)
     for r in range(depth):
         marg = np.bincount(cols[:, r], minlength=width)
-        case = {"kind": kind, "width": width, "depth": depth, "row": r, "keys_seed": _KEYS2_SEED}
+        case = {"kind": kind, "width": width, "depth": depth, "row": r, "keys_seed": _KEYS2_SEED, "keyset": keyset}
         if marg.min() < mlo or marg.max() > mhi:
             rec.violation(case, f"{kind} width={width} depth={depth}: row {r} column counts {marg.min()}..{marg.max()} outside the Binomial({n},1/{width}) interval [{mlo},{mhi}]", "row-not-uniform")
     for r1, r2 in itertools.combinations(range(depth), 2):
         joint = np.bincount(cols[:, r1] * width + cols[:, r2], minlength=width * width)
-        case = {"kind": kind, "width": width, "depth": depth, "rows": [r1, r2], "keys_seed": _KEYS2_SEED}
+        case = {"kind": kind, "width": width, "depth": depth, "rows": [r1, r2], "keys_seed": _KEYS2_SEED, "keyset": keyset}
         same = int((cols[:, r1] == cols[:, r2]).sum())
         if joint.min() < jlo or joint.max() > jhi:
             rec.violation(case, f"{kind} width={width} depth={depth}: rows {r1},{r2} joint cell counts {joint.min()}..{joint.max()} outside the Binomial({n},1/{width*width}) interval [{jlo},{jhi}]; {same} of {n} keys share a column in both rows (expected ~{n//width})", "rows-dependent")
-        rec.case(case, True, ["row_pairs", f"joint_{kind}"])
+        rec.case(case, True, ["row_pairs", f"joint_{kind}", f"keys_{keyset}"])
     return rec
 
 
 def run(tier, seed, rec):
-    global _KEYS2, _KEYS2_SEED
+    global _KEYS2, _KEYS3, _KEYS2_SEED
     quick = tier == "quick"
     jobs = []
     reps = 1 if quick else 4
@@ -158,17 +186,22 @@ def run(tier, seed, rec):
     jj += [("linear", 15, 8), ("linear", 51, 5), ("log8", 12, 5), ("log16", 17, 4), ("hh", 9, 4), ("linear", 7, 8)]
     if not quick:
         jj += [("log8", 64, 4), ("log16", 10, 8), ("hh", 8, 8), ("linear", 32, 8)]
+    _KEYS3 = stem_keys(np.random.default_rng(common.derive_seed(_KEYS2_SEED, "stems")), 20000)
+    jj += [("linear", 16, 8, "stems"), ("hh", 16, 4, "stems"), ("log8", 12, 5, "stems")]
+    if not quick:
+        jj += [("linear", 15, 8, "stems"), ("log16", 16, 8, "stems"), ("linear", 64, 3, "stems")]
     common.pool_merge(_joint_task, jj, rec)
-    _KEYS2 = None
+    _KEYS2 = _KEYS3 = None
 
 
 def replay(case):
-    global _KEYS2, _KEYS2_SEED
+    global _KEYS2, _KEYS3, _KEYS2_SEED
     if "stream_seed" in case:
         r = _stream_task((case["stream_seed"], case["K"], case["width"]))
     else:
         _KEYS2_SEED = case["keys_seed"]
         _KEYS2 = rand_keys(np.random.default_rng(_KEYS2_SEED), 20000)
-        r = _joint_task((case["kind"], case["width"], case["depth"]))
+        _KEYS3 = stem_keys(np.random.default_rng(common.derive_seed(_KEYS2_SEED, "stems")), 20000)
+        r = _joint_task((case["kind"], case["width"], case["depth"], case.get("keyset", "random")))
     if r.violations:
         raise Violation(r.violations[0]["msg"], r.violations[0]["signature"])
